@@ -314,7 +314,9 @@ def equivAttr (a b : Pen) (attr : PenAttr) : Bool :=
 /-- `tickit_pen_equiv` (the `a == b` pointer shortcut returns what the loop returns: `equiv_refl`). -/
 def equiv (a b : Pen) : Bool := PenAttr.all.all (equivAttr a b)
 
-/-- `tickit_pen_copy_attr` with `dst` and `src` distinct objects (value effect). -/
+/-- `tickit_pen_copy_attr` (value effect).  Everything is read from `src` (index, `has_rgb8`, `rgb8`) before
+    `dst` is written (since /repo 8cce03b), so `src` is a snapshot and the function is also right when `dst` and
+    `src` are the same object. -/
 def copyAttr (dst src : Pen) (attr : PenAttr) : Pen :=
   match attr.type with
   | .bool => dst.setBoolAttr attr (src.getBoolAttr attr)
@@ -323,15 +325,9 @@ def copyAttr (dst src : Pen) (attr : PenAttr) : Pen :=
     let d1 := dst.setColourAttr attr (src.getColourAttr attr)
     if src.hasColourAttrRgb8 attr then d1.setColourAttrRgb8 attr (src.getColourAttrRgb8 attr) else d1
 
-/-- `tickit_pen_copy_attr(p, p, attr)`: source and destination are the same object, so the
-    `has_colour_attr_rgb8(src)` test is made *after* `set_colour_attr(dst)` dropped the RGB8. -/
-def copyAttrSelf (p : Pen) (attr : PenAttr) : Pen :=
-  match attr.type with
-  | .bool => p.setBoolAttr attr (p.getBoolAttr attr)
-  | .int => p.setIntAttr attr (p.getIntAttr attr)
-  | .colour =>
-    let d1 := p.setColourAttr attr (p.getColourAttr attr)
-    if d1.hasColourAttrRgb8 attr then d1.setColourAttrRgb8 attr (d1.getColourAttrRgb8 attr) else d1
+/-- `tickit_pen_copy_attr(p, p, attr)`: source and destination are the same object; the source values are
+    those of `p` before the call, so the RGB8 secondary is kept. -/
+def copyAttrSelf (p : Pen) (attr : PenAttr) : Pen := p.copyAttr p attr
 
 /-- One iteration of the loop of `tickit_pen_copy`. -/
 def copyStep (src : Pen) (overwrite : Bool) (dst : Pen) (attr : PenAttr) : Pen :=
@@ -631,14 +627,7 @@ def copyAttr (dst : PenObj) (src : Pen) (attr : PenAttr) : PenObj :=
     let d2 := if src.hasColourAttrRgb8 attr then d1.setColourAttrRgb8 attr (src.getColourAttrRgb8 attr) else d1
     d2.thaw
 
-def copyAttrSelf (p : PenObj) (attr : PenAttr) : PenObj :=
-  match attr.type with
-  | .bool => p.setBoolAttr attr (p.pen.getBoolAttr attr)
-  | .int => p.setIntAttr attr (p.pen.getIntAttr attr)
-  | .colour =>
-    let d1 := p.freeze.setColourAttr attr (p.pen.getColourAttr attr)
-    let d2 := if d1.pen.hasColourAttrRgb8 attr then d1.setColourAttrRgb8 attr (d1.pen.getColourAttrRgb8 attr) else d1
-    d2.thaw
+def copyAttrSelf (p : PenObj) (attr : PenAttr) : PenObj := p.copyAttr p.pen attr
 
 def copyStep (src : Pen) (overwrite : Bool) (dst : PenObj) (attr : PenAttr) : PenObj :=
   if !src.hasAttr attr then dst
